@@ -5,11 +5,11 @@ Core Lean only.
 import Kap.Spec.C19
 namespace Kap.C19
 
-def keys {α : Type} (m : GoMap α) : List String := m.map (·.1)
+def keys {α : Type} (m : GoMap α) : List Str := m.map (·.1)
 
 /-! ### Go map assignment on fresh keys -/
 
-theorem mapSet_fresh {α : Type} (m : GoMap α) (k : String) (v : α) (h : k ∉ keys m) : mapSet m k v = m ++ [(k, v)] := by
+theorem mapSet_fresh {α : Type} (m : GoMap α) (k : Str) (v : α) (h : k ∉ keys m) : mapSet m k v = m ++ [(k, v)] := by
   have : m.any (fun e => e.1 == k) = false := by
     rw [List.any_eq_false]
     intro e he hk
@@ -69,9 +69,9 @@ def rtFields (f : Fields) : Fields := typeMapsToFields (strsOf f) (floatsOf f) (
 
 theorem rtFields_eq_rebuilt (f : Fields) (hnd : (keys f).Nodup) : rtFields f = rebuilt f := by
   have hk : (keys (rebuilt f)).Nodup :=
-    (List.Perm.map (fun e : String × FV => e.1) (rebuilt_perm f)).nodup_iff.mpr hnd
+    (List.Perm.map (fun e : Str × FV => e.1) (rebuilt_perm f)).nodup_iff.mpr hnd
   unfold rebuilt at hk ⊢
-  have sub {a b : List String} : (a ++ b).Nodup → a.Nodup := fun h => (List.nodup_append.mp h).1
+  have sub {a b : List Str} : (a ++ b).Nodup → a.Nodup := fun h => (List.nodup_append.mp h).1
   simp only [keys, List.map_append] at hk
   have e1 := foldl_mapSet_fresh FV.str (strsOf f) [] (by
     simp only [keys, List.nil_append]; exact sub hk)
@@ -169,6 +169,129 @@ theorem sameData_out (it : Item) (h : it.WF) : (edgeData it.out).map (sameData i
     obtain ⟨⟨hd, hg⟩, hp⟩ := h
     simp only [Item.out, edgeData, Item.data, sameData, Option.map_some, Option.some.injEq]
     simp [sameBatch, newBegin, sameMap_refl, sameBPs_rt pts hp, ← hd, ← hg]
+
+/-! ### the recorded deviations -/
+
+/-- Well-formedness WITHOUT the batch-header clause (what `echo_identity_up_to_dims` needs). -/
+def Item.WF0 : Item → Prop
+  | .pt p => p.WF
+  | .batch _ _ pts => ∀ bp ∈ pts, bp.WF
+
+theorem Item.WF.wf0 {it : Item} (h : it.WF) : it.WF0 := by
+  cases it with
+  | pt p => exact h
+  | batch bf b pts => exact h.2
+
+theorem sameData_out_dev (it : Item) (h : it.WF0) : (edgeData it.out).map (sameData (devDimsOut it.data)) = some true := by
+  cases it with
+  | pt p => simp [Item.out, edgeData, Item.data, devDimsOut, sameData, samePoint_rt p h]
+  | batch bf b pts =>
+    simp only [Item.out, edgeData, Item.data, devDimsOut, sameData, Option.map_some, Option.some.injEq]
+    simp [sameBatch, newBegin, sameMap_refl, sameBPs_rt pts h]
+
+theorem echoIdentityUpToDims_items : ∀ (items : List Item), (∀ it ∈ items, it.WF0) →
+    echoIdentityUpToDims (items.map Item.data) ((items.map Item.out).filterMap edgeData) = true
+  | [], _ => by simp [echoIdentityUpToDims, echoIdentity]
+  | it :: items, h => by
+    have ih := echoIdentityUpToDims_items items (fun i hi => h i (by simp [hi]))
+    have h1 := sameData_out_dev it (h it (by simp))
+    cases ho : edgeData it.out with
+    | none => simp [ho] at h1
+    | some d =>
+      simp only [ho, Option.map_some, Option.some.injEq] at h1
+      simp only [echoIdentityUpToDims, echoIdentity, Bool.and_eq_true, beq_iff_eq] at ih ⊢
+      simp only [List.map_cons, List.filterMap_cons, ho, List.length_cons, List.zip_cons_cons, List.all_cons, Bool.and_eq_true]
+      exact ⟨by omega, h1, ih.2⟩
+
+theorem devDimsOut_of_wf (it : Item) (h : it.WF) : devDimsOut it.data = it.data := by
+  cases it with
+  | pt p => rfl
+  | batch bf b pts =>
+    obtain ⟨⟨hd, hg⟩, _⟩ := h
+    simp only [Item.data, devDimsOut]
+    cases b
+    simp_all
+
+/-! ### strings on the wire come from the message -/
+
+theorem mem_fieldStrings_key {f : Fields} {k : Str} {v : FV} (h : (k, v) ∈ f) : k ∈ fieldStrings f := by
+  simp only [fieldStrings, List.mem_flatMap]
+  exact ⟨(k, v), h, by cases v <;> simp⟩
+
+theorem mem_fieldStrings_str {f : Fields} {k s : Str} (h : (k, FV.str s) ∈ f) : s ∈ fieldStrings f := by
+  simp only [fieldStrings, List.mem_flatMap]
+  exact ⟨(k, .str s), h, by simp⟩
+
+theorem typed_strings_sub (f : Fields) (s : Str)
+    (h : s ∈ mapStrings (floatsOf f) ++ mapStrings (intsOf f) ++ (strsOf f).flatMap (fun e => [e.1, e.2]) ++ mapStrings (boolsOf f)) :
+    s ∈ fieldStrings f := by
+  simp only [List.mem_append, mapStrings, List.mem_map, List.mem_flatMap, floatsOf, intsOf, strsOf, boolsOf, List.mem_filterMap] at h
+  rcases h with ((⟨e, ⟨⟨k, v⟩, hm, he⟩, rfl⟩ | ⟨e, ⟨⟨k, v⟩, hm, he⟩, rfl⟩) | ⟨e, ⟨⟨k, v⟩, hm, he⟩, hs⟩) | ⟨e, ⟨⟨k, v⟩, hm, he⟩, rfl⟩
+  all_goals cases v <;> simp at he
+  · obtain ⟨rfl⟩ := he; exact mem_fieldStrings_key hm
+  · obtain ⟨rfl⟩ := he; exact mem_fieldStrings_key hm
+  · obtain ⟨rfl⟩ := he
+    simp at hs
+    rcases hs with rfl | rfl
+    · exact mem_fieldStrings_key hm
+    · exact mem_fieldStrings_str hm
+  · obtain ⟨rfl⟩ := he; exact mem_fieldStrings_key hm
+
+theorem mem_strings_batch_head {b : Begin} {pts : List BP} {s : Str} (h : s ∈ [b.name, b.group] ++ tagStrings b.tags) :
+    s ∈ (Data.batch b pts).strings := by
+  simp only [Data.strings, List.append_assoc, List.mem_append] at h ⊢
+  rcases h with h | h
+  · exact Or.inl h
+  · exact Or.inr (Or.inl h)
+
+theorem mem_strings_batch_bp {b : Begin} {pts : List BP} {bp : BP} {s : Str} (hbp : bp ∈ pts)
+    (h : s ∈ tagStrings bp.tags ++ fieldStrings bp.fields) : s ∈ (Data.batch b pts).strings := by
+  simp only [Data.strings, List.append_assoc, List.mem_append]
+  exact Or.inr (Or.inr (List.mem_flatMap.mpr ⟨bp, hbp, h⟩))
+
+/-- Every string of every request written for an item is empty or a string of the item. -/
+theorem reqs_strings_sub (it : Item) : ∀ r ∈ it.reqs, ∀ s ∈ r.strings, s = [] ∨ s ∈ it.data.strings := by
+  intro r hr s hs
+  cases it with
+  | pt p =>
+    right
+    simp only [Item.reqs, List.mem_singleton] at hr
+    subst hr
+    simp only [writePoint, Request.strings, PBPoint.strings, List.append_assoc, List.mem_append] at hs
+    simp only [Item.data, Data.strings, tagStrings, List.append_assoc, List.mem_append]
+    rcases hs with h | h | h | h
+    · exact Or.inl h
+    · exact Or.inr (Or.inl h)
+    · exact Or.inr (Or.inr (Or.inl h))
+    · refine Or.inr (Or.inr (Or.inr (typed_strings_sub p.fields s ?_)))
+      simpa only [List.append_assoc, List.mem_append] using h
+  | batch bf b pts =>
+    simp only [Item.reqs, List.mem_cons, List.mem_append, List.mem_map, List.not_mem_nil, or_false] at hr
+    simp only [Item.data]
+    rcases hr with rfl | ⟨bp, hbp, rfl⟩ | rfl
+    · exact Or.inr (mem_strings_batch_head (by simpa [writeBegin, Request.strings, tagStrings] using hs))
+    · simp only [writeBatchPoint, Request.strings, PBPoint.strings, List.append_assoc, List.mem_append] at hs
+      rcases hs with h | h | h | h
+      · simp only [List.mem_cons, List.not_mem_nil, or_false] at h
+        rcases h with rfl | rfl | rfl | rfl
+        · exact Or.inl rfl
+        · exact Or.inl rfl
+        · exact Or.inl rfl
+        · exact Or.inr (mem_strings_batch_head (by simp))
+      · simp at h
+      · exact Or.inr (mem_strings_batch_bp hbp (List.mem_append.mpr (Or.inl h)))
+      · refine Or.inr (mem_strings_batch_bp hbp (List.mem_append.mpr (Or.inr (typed_strings_sub bp.fields s ?_))))
+        simpa only [List.append_assoc, List.mem_append] using h
+    · exact Or.inr (mem_strings_batch_head (by simpa [writeEnd, Request.strings, tagStrings] using hs))
+
+theorem marshalOK_of_valid (it : Item) (h : devUtf8 it.data = false) : ∀ r ∈ it.reqs, marshalOK r = true := by
+  intro r hr
+  simp only [marshalOK, List.all_eq_true]
+  intro s hs
+  rcases reqs_strings_sub it r hr s hs with rfl | hmem
+  · rfl
+  · simp only [devUtf8, List.any_eq_false] at h
+    simpa using h s hmem
 
 /-! ### the writing side -/
 
@@ -381,11 +504,11 @@ theorem handleAll_interleave {xs ys zs : List Response} (hi : Interleave xs ys z
 
 /-! ### echoed data through the assembly automaton -/
 
-def pbOfBP (group : String) (bp : BP) : PBPoint :=
+def pbOfBP (group : Str) (bp : BP) : PBPoint :=
   { time := bp.time, group := group, tags := bp.tags, fDouble := floatsOf bp.fields, fInt := intsOf bp.fields,
     fString := strsOf bp.fields, fBool := boolsOf bp.fields }
 
-theorem handleAll_bps (pb : PBBegin) (g : String) : ∀ (pts : List BP) (acc : List BP),
+theorem handleAll_bps (pb : PBBegin) (g : Str) : ∀ (pts : List BP) (acc : List BP),
     handleAll { begin := some pb, points := some acc } (pts.map (fun bp => Response.point (pbOfBP g bp))) =
       some ({ begin := some pb, points := some (acc ++ pts.map rtBP) }, [])
   | [], acc => by simp [handleAll]
@@ -490,5 +613,25 @@ theorem filterMap_snapOf_ctlOuts : ∀ (os : List Out), os.filterMap snapOf = (c
   | o :: os => by
     have ih := filterMap_snapOf_ctlOuts os
     cases o <;> simp [ctlOuts, List.filterMap_cons, snapOf] at ih ⊢ <;> exact ih
+
+/-- Core of the echo theorems: under every schedule the data handed out is `Item.out` of every item, in order. -/
+theorem echo_core (items : List Item)
+    (ctl : List Request) (hctl : ∀ r ∈ ctl, r.isData = false)
+    (reqs : List Request) (hreqs : Interleave (items.flatMap Item.reqs) ctl reqs)
+    (h : Peer) (resps : List Response)
+    (hresps : Interleave (agentRun h reqs).2.2 (agentRun h reqs).2.1 resps) :
+    ∃ outs, handleAll {} resps = some ({}, outs) ∧ dataOuts outs = items.map Item.out ∧
+      ctlOuts outs = (agentRun h ctl).2.1.flatMap ctlOutOf ∧ (agentRun h reqs).1 = (agentRun h ctl).1 := by
+  have hdata : ∀ r ∈ items.flatMap Item.reqs, r.isData = true := by
+    intro r hr
+    obtain ⟨it, _, hit⟩ := List.mem_flatMap.mp hr
+    exact item_reqs_data it r hit
+  have hech : (agentRun h reqs).2.2 = (items.flatMap Item.reqs).flatMap echoOf := by
+    rw [agentRun_echoed, flatMap_echo_interleave hreqs hctl]
+  rw [hech] at hresps
+  obtain ⟨outs, h1, h2, h3⟩ := handleAll_interleave hresps (agentRun_direct_ctl h reqs) {} {} _ (echo_items items) (ctlOuts_msgs items)
+  refine ⟨outs, h1, ?_, ?_, (agentRun_direct_interleave hreqs hdata h).2⟩
+  · rw [h2, dataOuts_msgs]
+  · rw [h3, (agentRun_direct_interleave hreqs hdata h).1]
 
 end Kap.C19
